@@ -235,7 +235,7 @@ class SC:
             b = lift_float(x.imag)
             return SC(a.re, b.re)
         if isinstance(x, numpy.ndarray) and x.shape == ():
-            return SC.lift(x.item())
+            return SC.lift(x[()] if x.dtype == object else x.item())
         raise TypeError("cannot lift %r to SC" % type(x))
 
     def is_real_const(self):
@@ -530,6 +530,12 @@ def lift_float(x):
     raise HarnessError("unrecognised irrational float constant %r reached the symbolic engine" % x)
 
 
+def _unwrap(v):
+    while isinstance(v, numpy.ndarray) and v.shape == ():
+        v = v[()]
+    return v
+
+
 def _ew(f, arr):
     out = numpy.empty(arr.shape, dtype=object)
     for idx in numpy.ndindex(arr.shape):
@@ -560,11 +566,11 @@ class XArr(numpy.ndarray):
 
     @property
     def real(self):
-        return _ew(lambda v: v.real if isinstance(v, SC) else complex(v).real, self)
+        return _ew(lambda v: SC.lift(_unwrap(v)).real if isinstance(_unwrap(v), SC) else complex(_unwrap(v)).real, self)
 
     @property
     def imag(self):
-        return _ew(lambda v: v.imag if isinstance(v, SC) else complex(v).imag, self)
+        return _ew(lambda v: SC.lift(_unwrap(v)).imag if isinstance(_unwrap(v), SC) else complex(_unwrap(v)).imag, self)
 
     def __array_finalize__(self, obj):
         pass
@@ -1259,9 +1265,16 @@ class Env:
         congruence axioms against every earlier registration:  a == b -> equal,  a == -b -> even
         parts equal and odd parts opposite.  Sound: consequences of the functions being functions."""
         reg = self._fun_reg.setdefault(kind, [])
+        powf = _cpow if kind == "trig" else _hpow
         for (a2, e2, o2) in reg:
-            self.axioms.append(z3.Implies(arg == a2, z3.And(even == e2, odd == o2)))
-            self.axioms.append(z3.Implies(arg == -a2, z3.And(even == e2, odd == -o2)))
+            for k in (1, 2, 3, 4):
+                ek, ok = powf(e2, o2, k)          # functions of k * a2
+                self.axioms.append(z3.Implies(arg == k * a2, z3.And(even == ek, odd == ok)))
+                self.axioms.append(z3.Implies(arg == -k * a2, z3.And(even == ek, odd == -ok)))
+                if k > 1:
+                    fk, gk = powf(even, odd, k)   # functions of k * arg
+                    self.axioms.append(z3.Implies(k * arg == a2, z3.And(e2 == fk, o2 == gk)))
+                    self.axioms.append(z3.Implies(k * arg == -a2, z3.And(e2 == fk, o2 == -gk)))
         reg.append((arg, even, odd))
 
     def _generic_pair(self, kind, x):
